@@ -50,9 +50,10 @@ ErrCases == {[kind |-> "badcond", flags |-> <<>>, supported |-> <<>>, names |-> 
             \*   plainerr     the error of writing out a rule whose detection item was changed by the items `names` (prints the item)
             \*   tmplerr      the error record of a post-processing template that asks for the rule's dict form (prints the rule)
             \*   funcid       the generated identifiers of items whose transformation holds a Python function
+            \*   dupfields    a field list and a group-by list in which two of `names` are mapped to one name, printed by a template
             \*   underq       a selector pattern starting with an underscore beside an added condition (random name)
             \cup {[kind |-> k, flags |-> <<>>, supported |-> <<>>, names |-> p, mapped |-> <<>>] :
-                    k \in {"appliedids", "converr", "reflagerr", "dangling3", "attrerr", "unknownvals", "tracking", "underq", "plainerr", "tmplerr", "funcid"}, p \in Perm3}
+                    k \in {"appliedids", "converr", "reflagerr", "dangling3", "attrerr", "unknownvals", "tracking", "underq", "plainerr", "tmplerr", "funcid", "dupfields"}, p \in Perm3}
 ASSUME LET S == SetToSeq(ReCases \cup StrictCases \cup VarCases \cup CustomCases \cup ErrCases)
        IN  ndJsonSerialize(IOEnv.VERIF_OUT, [i \in 1..Len(S) |-> [id |-> i] @@ S[i]])
 Init == x = 0
